@@ -126,6 +126,7 @@ def third_party_isolation_rules(fb, ctx):
 
 
 def print_table_rules(fb, ctx):
+    block_accessor_rules(fb, ctx)
     for fn in (f"{T}::Biscuit::print_block_source", f"{T}::unverified::UnverifiedBiscuit::print_block_source"):
         b = fb.body(fn)
         h = fb.hir_of(b)
@@ -133,6 +134,29 @@ def print_table_rules(fb, ctx):
         ifs = [n for n in find_all(h["body"], lambda n: n.get("k") == "if") if mcalls(n["cond"], r"Option::<T>::is_some$") and find_all(n["cond"], lambda z: z.get("k") == "field" and z.get("name") == "external_key")]
         ok = len(ifs) == 1 and bool(find_all(ifs[0]["then"], lambda z: z.get("k") == "field" and z.get("name") == "symbols" and re.search(r"token::block::Block$", z.get("ety") or ""))) and bool(find_all(ifs[0]["else"], lambda z: z.get("k") == "field" and z.get("name") == "symbols" and is_local(strip(z["e"]), "self")))
         ctx.check(ok, "PRINT", f"{short}: third-party blocks print with their own table, others with the token table", f"PRINT|{short}", "`if block.external_key.is_some() { &block.symbols } else { &self.symbols }` not found", f"{b['file']}:{b['line']}")
+
+
+def block_accessor_rules(fb, ctx):
+    """SIBLING: Biscuit::block and UnverifiedBiscuit::block hand the same Block to print_block_source; a third-party block keeps the
+    symbol / public-key tables it was decoded with (print_block_source resolves it against block.symbols). Any store into
+    `<block>.symbols` in an accessor must therefore sit under a test that the block is NOT third-party."""
+    for fn in (f"{T}::Biscuit::block", f"{T}::unverified::UnverifiedBiscuit::block"):
+        b = fb.body(fn)
+        h = fb.hir_of(b)
+        short = "::".join(fn.split("::")[-2:])
+        def sym_store(z):
+            if z.get("k") not in ("assign", "assignop"):
+                return False
+            n = strip(z["lhs"])
+            while isinstance(n, dict) and n.get("k") == "field":
+                if n.get("name") == "symbols" and re.search(r"token::block::Block$", n.get("ety") or ""):
+                    return True
+                n = strip(n["e"])
+            return False
+        stores = find_all(h["body"], sym_store)
+        guarded = lambda st: any(find_all(i["then"], lambda z: z is st) and find_all(i["cond"], lambda z: z.get("k") == "field" and z.get("name") == "external_key") and mcalls(i["cond"], r"Option::<T>::is_none$") for i in find_all(h["body"], lambda z: z.get("k") == "if"))
+        bad = [st for st in stores if not guarded(st)]
+        ctx.check(not bad, "SIBLING", f"{short}: a third-party block keeps its own symbol and key tables", f"SIBLING|{short}|tables", f"`block.symbols..` is overwritten at line {bad[0]['ln'] if bad else '?'} for every block: print_block_source then resolves a third-party block's `trusting <key>` against the token's key table and prints another key than the one the block trusts", f"{b['file']}:{bad[0]['ln'] if bad else b['line']}")
 
 
 def build_split_rules(fb, ctx):
@@ -154,3 +178,22 @@ def build_split_rules(fb, ctx):
         ctx.check(pairs == 2, "SPLIT", "the new entries are split off at the offsets read at the start", "SPLIT|args", f"split_at arguments: {[L.operand(s.args[1]) for s in sp]}", where)
         # all conversions happen before the split
         ctx.check(all(all(not mirq.dominates(b, s.bb, c.bb) for c in conv) for s in sp), "SPLIT", "nothing is interned after the split", "SPLIT|order", "a conversion runs after split_at: its symbols would stay in the token-wide copy", where)
+
+
+def rule_translate_rules(fb, ctx):
+    """TRANSLATE: datalog::Rule::translate re-expresses every index-carrying part of a rule (head, body, expressions, scopes - a
+    scope holds a public-key index) in the target table; a part copied verbatim keeps indices of the source table."""
+    tb = fb.body("biscuit_auth::datalog::Rule::translate")
+    agg = [s_ for _, s_ in mirq.aggregates(tb, r"datalog::Rule$")]
+    if len(agg) != 1:
+        ctx.fail("TRANSLATE", "Rule::translate builds one Rule", "TRANSLATE|Rule|anchor", f"{len(agg)} Rule aggregates", f"{tb['file']}:{tb['line']}")
+        return
+    for f in ("head", "body", "expressions", "scopes"):
+        op = mirq.agg_field(agg[0], f)
+        l = mirq.operand_leaves(fb, tb, op) if op is not None else set()
+        closure_calls = set()
+        for k_, cb in fb.bodies.items():
+            if k_.startswith(tb["key"] + "::"):
+                closure_calls |= {c.callee for c in fb.calls(cb)}
+        translated = any(x.startswith("call:") and "clone" not in x for x in l) and any(x == f"arg1.{f}" or x.startswith(f"arg1.{f}.") for x in l)
+        ctx.check(translated, "TRANSLATE", f"Rule::translate moves `{f}` into the target table", f"TRANSLATE|Rule|{f}", f"`{f}` of the translated rule depends on {sorted(l)[:6]}: copied verbatim, its symbol / public-key indices still refer to the source table (a `trusting <key>` scope then names whatever key has that index in the authorizer)", f"{tb['file']}:{tb['line']}")
